@@ -411,16 +411,18 @@ def getConsumerTopicList (g : Group) : ConsumerTopics :=
                    | none => [],
         brokerOffsets := [], owner := cp.owner, clientID := cp.clientID, currentLag := 0 })
 
-/-- the per-partition lag pass of `fetchConsumer` (inmemory.go:858-881); `none` = index panic -/
+/-- the per-partition lag pass of `fetchConsumer` (inmemory.go:858-889, after the repair of D7: a
+    consumer partition beyond the broker topic's partitions is skipped, and no lag is computed
+    without a broker offset); `none` = a panic, which remains only for a ring of size 0 -/
 def lagPass (topicMap : List (Ring BrokerOffset)) (p : Nat) (part : Eval.Partition) : Option Eval.Partition :=
   match topicMap[p]? with
-  | none => none                                  -- `topicMap[p]` out of range
+  | none => some part                             -- `if p >= len(topicMap) { continue }`
   | some bring =>
     if bring.len = 0 then none else
     let bos := bring.readoutNext.map (·.offset)
     if part.offsets.length > 0 then
       match bos.getLast? with
-      | none => none                              -- `BrokerOffsets[len-1]` with len = 0
+      | none => some { part with brokerOffsets := bos }   -- `&& len(partition.BrokerOffsets) > 0`
       | some b =>
         match part.offsets.getLast?.join with
         | none => some { part with brokerOffsets := bos }
